@@ -828,3 +828,299 @@ Example ex_store_sound :
   resolve st 1 1 = Some [12; 12; 10; 11] /\
   resolve st 1 2 = Some [71; 71; 70; 70].
 Proof. vm_compute. split; reflexivity. Qed.
+
+(* ------------------------------------------------------------------ *)
+(* the whole export step keeps the store consistent                    *)
+(* ------------------------------------------------------------------ *)
+Definition basin_written (slots : list (option (list Z))) (sb : sbasin)
+           (b : bdef) : Prop :=
+  slot_holds slots b (sb_map sb) /\
+  match sb with
+  | SBInternal d _ => b_internal b = true /\ b_int b = d
+  | SBFile t _ _ _ => b_internal b = false /\ b_target b = Z.to_nat t
+  end.
+
+Lemma store_basins_written sbs :
+  forall fl fl',
+    length (f_slots fl) = 10%nat ->
+    Forall name_ok sbs ->
+    store_basins fl sbs = Some fl' ->
+    f_innate fl' = f_innate fl /\ f_n fl' = f_n fl /\
+    length (f_slots fl') = 10%nat /\
+    (forall j m0, slot (f_slots fl) j = Some m0 ->
+                  slot (f_slots fl') j = Some m0) /\
+    exists bs, f_basins fl' = f_basins fl ++ bs /\
+               Forall2 (basin_written (f_slots fl')) sbs bs.
+Proof.
+  induction sbs as [|sb sbs IH]; intros fl fl' Hl Hn H; simpl in H.
+  - inversion H; subst. repeat split; auto.
+    exists []; split; [now rewrite app_nil_r|constructor].
+  - destruct (store_basin fl sb) as [fl1|] eqn:E1; [|discriminate].
+    inversion Hn as [|? ? Hn1 Hn2]; subst.
+    destruct (store_basin_sound _ _ _ Hl Hn1 E1)
+      as (Hl1 & Hn1' & Hi1 & Hp1 & b & Hb & Hh & Hint & Htgt).
+    destruct (IH fl1 fl' Hl1 Hn2 H)
+      as (Hi' & Hn' & Hl' & Hp' & bs & Hbs & HF).
+    repeat split; auto; try congruence.
+    exists (b :: bs); split.
+    + rewrite Hbs, Hb, <- app_assoc. reflexivity.
+    + constructor; [|assumption]. split.
+      * unfold slot_holds in *. destruct (sb_map sb) as [mm|]; [|assumption].
+        destruct Hh as [k [Hk Hs]]. exists k; split; auto.
+      * destruct sb; auto.
+Qed.
+
+Lemma all_some_map_Forall {B C} (g : B -> option C) (P : B -> Prop)
+      (Q : C -> Prop) :
+  (forall x y, P x -> g x = Some y -> Q y) ->
+  forall l r, Forall P l -> all_some (map g l) = Some r -> Forall Q r.
+Proof.
+  intros Hg l; induction l as [|x l IH]; intros r HP H; simpl in H.
+  - inversion H; constructor.
+  - inversion HP as [|? ? Hx Hl]; subst.
+    destruct (g x) as [y|] eqn:Ey; [|discriminate].
+    destruct (all_some (map g l)) as [t|] eqn:Et; [|discriminate].
+    inversion H; subst. constructor; [now apply (Hg x)|now apply IH].
+Qed.
+
+Lemma all_some_map_length {B C} (g : B -> option C) l r :
+  all_some (map g l) = Some r -> length r = length l.
+Proof.
+  revert r; induction l as [|x l IH]; intros r H; simpl in H.
+  - now inversion H.
+  - destruct (g x); [|discriminate].
+    destruct (all_some (map g l)) as [t|]; [|discriminate].
+    inversion H; subst; simpl. now rewrite (IH t eq_refl).
+Qed.
+
+Lemma assoc_In {B} f (l : list (Z * B)) d : assoc f l = Some d -> In (f, d) l.
+Proof.
+  induction l as [|[k v] l IH]; simpl; [discriminate|].
+  destruct (f =? k) eqn:E.
+  - intros H; inversion H; subst. left. f_equal. lia.
+  - intros H; right; now apply IH.
+Qed.
+
+Lemma zrange_length k a s : length (zrange k a s) = k.
+Proof. revert a; induction k as [|k IH]; intros a; simpl; auto. Qed.
+
+Lemma zlen_iota n : 0 <= n -> zlen (iota n) = n.
+Proof. intros H; unfold zlen, iota. rewrite zrange_length. lia. Qed.
+
+Lemma zlen_nonneg {A} (l : list A) : 0 <= zlen l.
+Proof. unfold zlen; lia. Qed.
+
+Lemma Forall2_In_r {B C} (R : B -> C -> Prop) l r y :
+  Forall2 R l r -> In y r -> exists x, In x l /\ R x y.
+Proof.
+  intros H; induction H as [|x y' l r Hxy HF IH]; simpl; [contradiction|].
+  intros [<-|Hin].
+  - exists x; auto.
+  - destruct (IH Hin) as [x0 [H1 H2]]. exists x0; auto.
+Qed.
+
+Section ExportSound.
+  Variable truth : Z -> list Z.
+  Variable omap : nat -> list Z.
+
+  (* basins refer to files of the store (C14 covers cycles) *)
+  Definition scoped (st : store) : Prop :=
+    forall fid fl, get_file st fid = Some fl ->
+      forall b, In b (f_basins fl) -> b_internal b = false ->
+                (b_target b < length st)%nat.
+
+  Definition omap_ext (n : nat) (new : list Z) (j : nat) : list Z :=
+    if Nat.eqb j n then new else omap j.
+
+  (* a store_basin request whose map shows [data] of its target *)
+  Definition good_sb (st : store) (data : list Z) (sb : sbasin) : Prop :=
+    match sb with
+    | SBInternal _ _ => True
+    | SBFile t m nm _ =>
+        nm = None /\ (Z.to_nat t < length st)%nat /\
+        view_through (omap (Z.to_nat t)) m = Some data
+    end.
+
+  Lemma export_sound st src root pfilts filt feats fl' cv :
+    store_sound truth omap st ->
+    scoped st ->
+    get_file st src = Some root ->
+    length (f_slots root) = 10%nat ->
+    (* cv: the origin events of the dataset that is exported *)
+    match pfilts with
+    | [] => f_n root = zlen (omap src) /\ cv = omap src
+    | _ => exists idx, child2root pfilts = Some idx /\
+                       gather (omap src) idx = Some cv
+    end ->
+    export st src pfilts filt feats = Some fl' ->
+    file_sound truth (omap_ext (length st) (mask filt cv))
+               (st ++ [Some fl']) (length st) fl' /\
+    f_n fl' = count_true filt /\ length (f_slots fl') = 10%nat /\
+    zlen cv = zlen filt.
+  Proof.
+    intros Hst Hsc Hroot Hl10 Hcv H.
+    assert (Hsrc : (src < length st)%nat).
+    { unfold get_file in Hroot.
+      destruct (nth_error st src) eqn:E; [|discriminate].
+      apply nth_error_Some. congruence. }
+    destruct (Hst src root Hroot) as (HI & HB & HN).
+    unfold export in H. rewrite Hroot in H. simpl opt_bind in H.
+    set (hier := match pfilts with [] => false | _ => true end) in *.
+    destruct (if hier then child2root pfilts else Some (iota (f_n root)))
+      as [idx_root|] eqn:Eidx; [|discriminate].
+    simpl opt_bind in H.
+    set (view := fun d : list Z =>
+                   if hier then gather d idx_root else Some d) in *.
+    (* the view of the source's origin events *)
+    assert (Hview : view (omap src) = Some cv /\ zlen idx_root = zlen cv).
+    { unfold view, hier in *. destruct pfilts as [|pf pfs].
+      - destruct Hcv as [Hn ->]. inversion Eidx; subst. split; auto.
+        rewrite zlen_iota; [assumption|]. rewrite Hn. apply zlen_nonneg.
+      - destruct Hcv as [idx [Hc Hg]]. rewrite Hc in Eidx.
+        inversion Eidx; subst. split; auto.
+        symmetry; now apply (gather_zlen _ _ _ Hg). }
+    destruct Hview as [Hview Hlen].
+    destruct (zlen idx_root =? zlen filt) eqn:Elen; simpl in H;
+      [|discriminate].
+    assert (Hcvlen : zlen cv = zlen filt) by lia.
+    (* features *)
+    match type of H with
+    | opt_bind (all_some (map ?g ?names)) _ = _ =>
+        destruct (all_some (map g names)) as [innate|] eqn:Einn;
+          [|discriminate]; set (gi := g) in *
+    end.
+    simpl opt_bind in H.
+    assert (Hinn : forall f d, In (f, d) innate ->
+                   gather (truth f) (mask filt cv) = Some d).
+    { assert (HF : Forall (fun fd => gather (truth (fst fd)) (mask filt cv)
+                                     = Some (snd fd)) innate).
+      { eapply (all_some_map_Forall gi (fun _ => True));
+          [ | | exact Einn].
+        - intros f [f' d'] _ Hg. unfold gi in Hg. simpl.
+          destruct (resolve st src f) as [d0|] eqn:Er; [|discriminate].
+          simpl in Hg. destruct (view d0) as [v|] eqn:Ev; [|discriminate].
+          simpl in Hg. inversion Hg; subst.
+          pose proof (resolve_sound truth omap st src f' d0 Hst Er) as Ht.
+          apply mask_gather.
+          unfold view in *. destruct hier.
+          + rewrite (gather_gather _ _ _ Ht idx_root) in Ev.
+            rewrite Hview in Ev. exact Ev.
+          + inversion Ev; inversion Hview; subst. exact Ht.
+        - apply Forall_forall. intros; exact I. }
+      intros f d Hin. rewrite Forall_forall in HF. exact (HF (f, d) Hin). }
+    (* basinmap features copied with the default feature list *)
+    match type of H with
+    | opt_bind ?x _ = _ => destruct x as [slots0|] eqn:Eslots; [|discriminate]
+    end.
+    simpl opt_bind in H.
+    assert (Hs0 : length slots0 = 10%nat).
+    { destruct feats.
+      - inversion Eslots; reflexivity.
+      - rewrite (all_some_map_length _ _ _ Eslots). exact Hl10. }
+    (* upstream basins *)
+    destruct (all_some (map (as_dict st root) (sorted_basins (f_basins root))))
+      as [upstream|] eqn:Eup; [|discriminate].
+    simpl opt_bind in H.
+    assert (Hup : Forall (good_sb st (omap src)) upstream).
+    { eapply (all_some_map_Forall (as_dict st root)
+                (fun b => In b (f_basins root))); [ | | exact Eup].
+      - intros b sb Hb Hd. unfold as_dict in Hd.
+        destruct (b_internal b) eqn:Ei.
+        + destruct (b_slot b) as [k|]; [|discriminate].
+          destruct (slot (f_slots root) k); [|discriminate].
+          inversion Hd; subst; exact I.
+        + specialize (HB b Hb Ei).
+          pose proof (Hsc src root Hroot b Hb Ei) as Ht.
+          destruct (b_slot b) as [k|].
+          * destruct HB as [m0 [Hs Hg]]. rewrite Hs in Hd.
+            inversion Hd; subst. simpl. rewrite Nat2Z.id. auto.
+          * inversion Hd; subst. simpl. rewrite Nat2Z.id.
+            repeat split; auto. now rewrite HB.
+      - apply Forall_forall. intros b Hb. now apply In_sorted_basins. }
+    match type of H with
+    | opt_bind (all_some (map ?g upstream)) _ = _ =>
+        destruct (all_some (map g upstream)) as [upstream'|] eqn:Eup';
+          [|discriminate]; set (gh := g) in *
+    end.
+    simpl opt_bind in H.
+    assert (Hup' : Forall (good_sb st cv) upstream').
+    { eapply (all_some_map_Forall gh (good_sb st (omap src)));
+        [ | exact Hup | exact Eup'].
+      intros sb sb' Hg Hh. unfold gh in Hh.
+      destruct sb as [dd mm|t m nm fs]; [inversion Hh; subst; exact I|].
+      destruct Hg as (Hnm & Ht & Hv).
+      unfold view in Hview. destruct hier.
+      - destruct (hier_map_sound _ _ _ _ _ Hv Hview) as [m1 [E1 G1]].
+        rewrite E1 in Hh. simpl in Hh. inversion Hh; subst. simpl. auto.
+      - inversion Hh; inversion Hview; subst. simpl. auto. }
+    set (self := SBFile (Z.of_nat src)
+                        (if hier then Some idx_root else None) None None)
+      in *.
+    assert (Hself : good_sb st cv self).
+    { unfold self; simpl. rewrite Nat2Z.id. repeat split; auto.
+      unfold view in Hview. destruct hier; simpl; assumption. }
+    match type of H with
+    | opt_bind (all_some (map ?g _)) _ = _ =>
+        destruct (all_some (map g (upstream' ++ [self]))) as [blist|] eqn:Ebl;
+          [|discriminate]; set (ge := g) in *
+    end.
+    simpl opt_bind in H.
+    assert (Hbl : Forall (fun sb => good_sb st (mask filt cv) sb /\
+                                    (match sb with
+                                     | SBFile _ None _ _ => False
+                                     | _ => True
+                                     end)) blist).
+    { eapply (all_some_map_Forall ge (good_sb st cv)); [ | | exact Ebl].
+      - intros sb sb' Hg He. unfold ge in He.
+        destruct sb as [dd mm|t m nm fs];
+          [inversion He; subst; split; exact I|].
+        destruct Hg as (Hnm & Ht & Hv).
+        destruct (export_map_sound _ _ _ filt Hv Hcvlen) as [m' [E1 G1]].
+        rewrite E1 in He. simpl in He. inversion He; subst. simpl. auto.
+      - apply Forall_app; split; [assumption|]. constructor; [|constructor].
+        exact Hself. }
+    set (blist' := filter (fun sb => match sb with
+                                     | SBInternal _ _ => false
+                                     | _ => true
+                                     end) blist) in *.
+    assert (Hbl' : Forall (fun sb => exists t m' fs,
+                             sb = SBFile t (Some m') None fs /\
+                             (Z.to_nat t < length st)%nat /\
+                             gather (omap (Z.to_nat t)) m'
+                             = Some (mask filt cv)) blist').
+    { apply Forall_forall. intros sb Hin. unfold blist' in Hin.
+      apply filter_In in Hin as [Hin Hf]. rewrite Forall_forall in Hbl.
+      destruct (Hbl sb Hin) as [Hg Hm].
+      destruct sb as [dd mm|t [m'|] nm fs]; try discriminate; try contradiction.
+      destruct Hg as (-> & Ht & Hv). exists t, m', fs. auto. }
+    assert (Hnames : Forall name_ok blist').
+    { apply Forall_forall. intros sb Hin. rewrite Forall_forall in Hbl'.
+      destruct (Hbl' sb Hin) as (t & m' & fs & -> & _). exact I. }
+    destruct (store_basins_written blist' _ fl' Hs0 Hnames H)
+      as (Hfi & Hfn & Hfl & _ & bs & Hbs & HF2).
+    simpl in Hfi, Hfn, Hbs.
+    split; [|repeat split; auto].
+    unfold file_sound. repeat split.
+    - (* stored features *)
+      intros f d Ha. rewrite Hfi in Ha. apply assoc_In in Ha.
+      unfold omap_ext. rewrite Nat.eqb_refl. now apply Hinn.
+    - (* basin definitions *)
+      intros b Hb Hi. rewrite Hbs in Hb.
+      destruct (Forall2_In_r _ _ _ _ HF2 Hb) as [sb [Hsb [Hh Hk]]].
+      rewrite Forall_forall in Hbl'.
+      destruct (Hbl' sb Hsb) as (t & m' & fs & -> & Ht & Hg).
+      simpl in Hh, Hk. destruct Hk as [_ Htg].
+      destruct Hh as [k [Hk Hs]]. rewrite Hk.
+      exists m'; split; [assumption|].
+      unfold omap_ext. rewrite Nat.eqb_refl, Htg.
+      replace (Nat.eqb (Z.to_nat t) (length st)) with false
+        by (symmetry; apply Nat.eqb_neq; lia).
+      exact Hg.
+    - (* no internal basins are exported *)
+      intros b Hb Hi. rewrite Hbs in Hb.
+      destruct (Forall2_In_r _ _ _ _ HF2 Hb) as [sb [Hsb [Hh Hk]]].
+      rewrite Forall_forall in Hbl'.
+      destruct (Hbl' sb Hsb) as (t & m' & fs & -> & _).
+      simpl in Hk. destruct Hk as [Hk _]. congruence.
+  Qed.
+End ExportSound.
